@@ -14,6 +14,7 @@ driver uses FNV-1a 32); `dec` is the roaring payload decoder of property C04, `l
 decoder of C04 (a bitmap holding exactly the snapshot's set).
 -/
 import PV.C05.LemmasLogged
+import PV.C05.LemmasFail
 import PV.C02.LemmasBT
 import PV.C02.LemmasSC
 namespace PV.C05
@@ -172,10 +173,113 @@ theorem C05_history_replay (C : Coll σ) (ok : CollOK C) (p : Policy)
   obtain ⟨r, h1, _, h3, h4, h5⟩ := C05_replay C ok fnv32a fnv32a_lt dec _ hi C' ok' p' b0 hg0 hs0
   exact ⟨r, h1, h3, h4, h5⟩
 
-/-! ### Non-vacuity -/
+/-! ### Writer failures
+
+`WOut` = what one `Write` on the OpWriter does (`Model.lean`): `ok`, or an error after `k` bytes.
+
+Full-strength statement one would like (NOT true of the code, see the two witnesses below):
+  *every logged mutation whose write fails leaves the set, `ops`, `opN` and the log exactly as
+  they were, and reports the error.*
+What the code guarantees, and what is proved:
+  * `C05_failed_write_unchanged`: AddN / RemoveN whose write fails — after any number of bytes —
+    roll the bitmap back to exactly the set it held, count nothing and report `(0, err)`; the only
+    trace is the `k` bytes the writer took.
+  * `C05_failing_step_partial`: under clean failures (`k = 0`) Add / Remove / AddN / RemoveN keep
+    the log invariant, so `C05_replay` still holds after them (for Add / Remove: the values before
+    the failing write are logged and applied, the failing one and the later ones are neither).
+Excluded, with witnesses: (a) `ImportRoaringBits(log=true)` applies the import, then logs it, and
+on a failed write returns the error without undoing anything (`C05_import_failed_write_witness`);
+(b) a short write (`k > 0`) leaves a torn op in the log, which the replay loop refuses
+(`C05_short_write_witness`). -/
+
+/-- **A failed write leaves AddN / RemoveN without effect.** -/
+theorem C05_failed_write_unchanged (C : Coll σ) (ok : CollOK C) (p : Policy) (H : Bytes → Nat) (st : LB σ)
+    (vs : List Nat) (k : Nat) (hg : Good C ok st.bm) (hvs : ∀ v ∈ vs, v < 2 ^ 64) (hne : vs.isEmpty = false) :
+    (Good C ok (lAddNW C p H st vs (.fail k)).1.bm ∧
+     slice C (lAddNW C p H st vs (.fail k)).1.bm = slice C st.bm ∧
+     (lAddNW C p H st vs (.fail k)).1.ops = st.ops ∧ (lAddNW C p H st vs (.fail k)).1.opN = st.opN ∧
+     (lAddNW C p H st vs (.fail k)).1.log
+       = st.log ++ (encode H (.addBatch (Spec.newly (slice C st.bm) vs))).take k ∧
+     (lAddNW C p H st vs (.fail k)).2.2.1 = 0 ∧ (lAddNW C p H st vs (.fail k)).2.2.2 = true) ∧
+    (Good C ok (lRemoveNW C p H st vs (.fail k)).1.bm ∧
+     slice C (lRemoveNW C p H st vs (.fail k)).1.bm = slice C st.bm ∧
+     (lRemoveNW C p H st vs (.fail k)).1.ops = st.ops ∧ (lRemoveNW C p H st vs (.fail k)).1.opN = st.opN ∧
+     (lRemoveNW C p H st vs (.fail k)).1.log
+       = st.log ++ (encode H (.removeBatch (Spec.gone (slice C st.bm) vs))).take k ∧
+     (lRemoveNW C p H st vs (.fail k)).2.2.1 = 0 ∧ (lRemoveNW C p H st vs (.fail k)).2.2.2 = true) :=
+  ⟨lAddNW_fail C ok p H st vs k hg hvs hne, lRemoveNW_fail C ok p H st vs k hg hvs hne⟩
+
+/-- **Clean write failures keep the log invariant** for Add / Remove / AddN / RemoveN (and a
+successful import is the old case). -/
+theorem C05_failing_step_partial (C : Coll σ) (ok : CollOK C) (p : Policy) (H : Bytes → Nat) (hH : ∀ bs, H bs < 2 ^ 32)
+    (dec : Bytes → Option (List (Nat × Cell))) (load : Spec.S → BM σ)
+    (hload : ∀ s, Good C ok (load s) ∧ slice C (load s) = s)
+    (st : LB σ × Spec.S) (hi : LInv C ok H dec st) :
+    (∀ vs outs c0, (∀ v ∈ vs, v < 2 ^ 64) → (∀ o ∈ outs, CleanOut o) →
+        LInv C ok H dec ((lAddW C p H st.1 c0 vs outs).1, st.2)) ∧
+    (∀ vs outs c0, (∀ v ∈ vs, v < 2 ^ 64) → (∀ o ∈ outs, CleanOut o) →
+        LInv C ok H dec ((lRemoveW C p H st.1 c0 vs outs).1, st.2)) ∧
+    (∀ vs out, CmdOK dec (.addN vs) → CleanOut out → LInv C ok H dec ((lAddNW C p H st.1 vs out).1, st.2)) ∧
+    (∀ vs out, CmdOK dec (.removeN vs) → CleanOut out → LInv C ok H dec ((lRemoveNW C p H st.1 vs out).1, st.2)) ∧
+    (∀ clear pl gs, CmdOK dec (.importR clear pl gs) →
+        LInv C ok H dec ((lImportW C p H st.1 clear pl gs .ok).1, st.2)) := by
+  obtain ⟨ghost, hg⟩ := hi
+  refine ⟨?_, ?_, ?_, ?_, ?_⟩
+  · intro vs outs c0 hv ho; exact lAddW_inv C ok p H dec st.2 vs st.1 c0 outs ghost hg hv ho
+  · intro vs outs c0 hv ho; exact lRemoveW_inv C ok p H dec st.2 vs st.1 c0 outs ghost hg hv ho
+  · intro vs out hc ho
+    rcases ho with e | e
+    · have := C05_logged_step C ok p H hH dec load hload st (.addN vs) ⟨ghost, hg⟩ hc
+      have heq : (lAddNW C p H st.1 vs .ok).1 = (lAddN C p H st.1 vs).1 := by
+        unfold lAddNW lAddN; split <;> rfl
+      rw [e, heq]; exact this
+    · rw [e]
+      by_cases hne : vs.isEmpty = true
+      · have : (lAddNW C p H st.1 vs (.fail 0)).1 = st.1 := by unfold lAddNW; simp [hne]
+        rw [this]; exact ⟨ghost, hg⟩
+      · have hne' : vs.isEmpty = false := by simpa using hne
+        obtain ⟨f1, f2, f3, f4, f5, _, _⟩ := lAddNW_fail C ok p H st.1 vs 0 hg.good hc.1 hne'
+        exact ⟨ghost, ⟨f1, by rw [f5]; simp [hg.log], hg.wf, by rw [f2]; exact hg.set,
+          by rw [f3]; exact hg.ops, by rw [f4]; exact hg.opN⟩⟩
+  · intro vs out hc ho
+    rcases ho with e | e
+    · have := C05_logged_step C ok p H hH dec load hload st (.removeN vs) ⟨ghost, hg⟩ hc
+      have heq : (lRemoveNW C p H st.1 vs .ok).1 = (lRemoveN C p H st.1 vs).1 := by
+        unfold lRemoveNW lRemoveN; split <;> rfl
+      rw [e, heq]; exact this
+    · rw [e]
+      by_cases hne : vs.isEmpty = true
+      · have : (lRemoveNW C p H st.1 vs (.fail 0)).1 = st.1 := by unfold lRemoveNW; simp [hne]
+        rw [this]; exact ⟨ghost, hg⟩
+      · have hne' : vs.isEmpty = false := by simpa using hne
+        obtain ⟨f1, f2, f3, f4, f5, _, _⟩ := lRemoveNW_fail C ok p H st.1 vs 0 hg.good hc.1 hne'
+        exact ⟨ghost, ⟨f1, by rw [f5]; simp [hg.log], hg.wf, by rw [f2]; exact hg.set,
+          by rw [f3]; exact hg.ops, by rw [f4]; exact hg.opN⟩⟩
+  · intro clear pl gs hc
+    have := C05_logged_step C ok p H hH dec load hload st (.importR clear pl gs) ⟨ghost, hg⟩ hc
+    exact this
 
 def polA : Policy :=
   ⟨fun _ _ => false, fun _ _ => false, fun _ _ => false, fun _ => false, fun _ => false, fun _ _ => false⟩
+
+/-- Witness (a): a set-import of `{7}` whose write fails cleanly — the bitmap now holds 7, the log
+is empty and nothing was counted: snapshot ++ log decodes to the empty set, not to the live one. -/
+theorem C05_import_failed_write_witness :
+    slice btColl (lImportW btColl polA fnv32a (linit btColl).1 false [1, 2, 3] [(0, [7])] (.fail 0)).1.bm = [7] ∧
+    (lImportW btColl polA fnv32a (linit btColl).1 false [1, 2, 3] [(0, [7])] (.fail 0)).1.log = [] ∧
+    (lImportW btColl polA fnv32a (linit btColl).1 false [1, 2, 3] [(0, [7])] (.fail 0)).1.ops = 0 ∧
+    (lImportW btColl polA fnv32a (linit btColl).1 false [1, 2, 3] [(0, [7])] (.fail 0)).2.2 = true := by
+  decide
+
+/-- Witness (b): `AddN(7)` whose write returns an error after 5 bytes — the bitmap is rolled back,
+but the 5 bytes stay in the log and the replay loop cannot decode them any more. -/
+theorem C05_short_write_witness :
+    slice btColl (lAddNW btColl polA fnv32a (linit btColl).1 [7] (.fail 5)).1.bm = [] ∧
+    (lAddNW btColl polA fnv32a (linit btColl).1 [7] (.fail 5)).1.log.length = 5 ∧
+    decode fnv32a (lAddNW btColl polA fnv32a (linit btColl).1 [7] (.fail 5)).1.log = none := by
+  decide
+
+/-! ### Non-vacuity -/
 
 /-- A concrete op survives the round trip with the real checksum (batch with a duplicate). -/
 example : decode fnv32a (encode fnv32a (.addBatch [7, 65536, 7]) ++ [1, 2, 3]) = some (.addBatch [7, 65536, 7], 37) := by
